@@ -346,7 +346,7 @@ def off_cases(tier):
     for si in range(len(SHAPES)):
         n = len(list(placements(0)))
         for pi in range(n):
-            for side in ("loads", "load", "server", "server-batch", "client", "loads/escaped", "server/escaped", "client/escaped"):
+            for side in ("loads", "load", "server", "server-batch", "client", "loads/escaped", "server/escaped", "client/escaped", "client-multicall"):
                 yield (si, pi, side)
 
 
@@ -387,6 +387,22 @@ def check_off(case):
         first = w.log[0] if w.log else None
         if not (first and first[0] == "echo" and gen.same(first[1], [plain])):
             out.bad("C08/off/method-did-not-receive-payload-verbatim", "body %r -> invocation log %r" % (body, w.log))
+    elif side == "client-multicall":
+        # a MultiCall built on a proxy whose configuration has translation off (no configuration given to the MultiCall itself)
+        from mc.loop import CannedTransport
+
+        t = CannedTransport([json.dumps([{"jsonrpc": "2.0", "id": 1, "result": struct}, {"jsonrpc": "2.0", "id": 2, "result": [struct]}])])
+        p = jsonrpclib.ServerProxy("http://h/", transport=t, config=CFG_OFF)
+        with recording() as rec:
+            try:
+                mc = jsonrpclib.MultiCall(p)
+                mc.m()
+                mc.n(1)
+                got = list(mc())
+            except Exception as ex:
+                return out.bad("C08/off/client-raises-%s" % type(ex).__name__, "batch result %r raised %r" % (struct, ex))
+        if not gen.same(got, [plain, [plain]]):
+            out.bad("C08/off/decoding-differs-from-plain-json", "MultiCall results %r, expected %r" % (got, [plain, [plain]]))
     else:
         # client: a response carrying the structure, translation off on the proxy
         from mc.loop import CannedTransport
